@@ -1697,7 +1697,7 @@ impl Property for C11 {
     }
 
     fn cases(&self, tier: Tier) -> u32 {
-        tier.pick(20_000, 400_000)
+        tier.pick(40_000, 600_000)
     }
 
     fn rule(&self) -> String {
